@@ -139,7 +139,48 @@ func (s *State) assume(f string, a ...interface{}) {
 
 func isIface(t types.Type) bool { _, ok := t.Underlying().(*types.Interface); return ok }
 
+// type arguments of generic instantiations are dropped from names (Name[T1, T2] -> Name[]): the body of a generic
+// function is verified once over Name[V], its callers see Name[*Concrete]; both must read the same heap families.
+// (Fields whose own type mentions a type parameter get their sort appended by structFamT, so no family has two sorts.)
+func dropTypeArgs(s string) string {
+	for {
+		changed := false
+		for i := 0; i < len(s); i++ {
+			if s[i] != '[' || i == 0 {
+				continue
+			}
+			c := s[i-1]
+			if !(c == '_' || c >= '0' && c <= '9' || c >= 'a' && c <= 'z' || c >= 'A' && c <= 'Z') {
+				continue // [12]byte, []T
+			}
+			// the identifier before the bracket
+			j := i - 1
+			for j >= 0 && (s[j] == '_' || s[j] >= '0' && s[j] <= '9' || s[j] >= 'a' && s[j] <= 'z' || s[j] >= 'A' && s[j] <= 'Z') {
+				j--
+			}
+			if s[j+1:i] == "map" {
+				continue
+			}
+			// innermost bracket group only
+			k := i + 1
+			for k < len(s) && s[k] != ']' && s[k] != '[' {
+				k++
+			}
+			if k >= len(s) || s[k] != ']' || k == i+1 {
+				continue
+			}
+			s = s[:i+1] + s[k:]
+			changed = true
+			break
+		}
+		if !changed {
+			return s
+		}
+	}
+}
+
 func sanitize(s string) string {
+	s = dropTypeArgs(s)
 	r := strings.NewReplacer("github.com/yorkie-team/yorkie/", "", "/", "_", "*", "P", "[", "_", "]", "_", " ", "", "{", "", "}", "", "(", "", ")", "", ",", "_", "-", "_", "|", "_", ";", "_", "\"", "", "\\", "_")
 	return r.Replace(s)
 }
@@ -765,7 +806,34 @@ func (e *Exec) eqVal(t types.Type, a, b Val) string {
 }
 
 // struct field families of a named struct type
-func structFam(st types.Type, fld string) string { return sanitize(st.String()) + "." + fld }
+func structFam(st types.Type, fld string) string {
+	name := sanitize(st.String()) + "." + fld
+	// a field whose type mentions a type parameter has different sorts in the generic body and at its instantiations
+	if u, ok := st.Underlying().(*types.Struct); ok {
+		for i := 0; i < u.NumFields(); i++ {
+			if u.Field(i).Name() == fld {
+				if so := sortOf(u.Field(i).Type()); strings.HasPrefix(so, "TP_") {
+					return name + "#" + so
+				}
+			}
+		}
+	}
+	if nt, ok := st.(*types.Named); ok && nt.TypeArgs().Len() > 0 {
+		// an instantiation: if the ORIGIN's field has a type-parameter type, keep this view apart from the generic one
+		if ou, ok := nt.Origin().Underlying().(*types.Struct); ok {
+			for i := 0; i < ou.NumFields(); i++ {
+				if ou.Field(i).Name() == fld {
+					if _, isTP := ou.Field(i).Type().(*types.TypeParam); isTP {
+						if u, ok := st.Underlying().(*types.Struct); ok && i < u.NumFields() {
+							return name + "#" + sortOf(u.Field(i).Type())
+						}
+					}
+				}
+			}
+		}
+	}
+	return name
+}
 
 func pointeeKey(t types.Type) string {
 	if _, ok := t.Underlying().(*types.Struct); ok {
